@@ -215,8 +215,14 @@ pub fn hostile_rooted_doc() -> BoxedStrategy<String> {
 }
 
 fn fam_hostile(_t: Tier) -> BoxedStrategy<Case> {
-    (vec(hpick(), 1..6), gen::cfg_hostile(), prop::bool::weighted(0.8))
-        .prop_map(|(picks, cfg, rooted)| Case { input: hostile_doc(&picks, rooted), cfg, rooted: Some(rooted), namespaced: false, fam: "hostile".into() })
+    (vec(hpick(), 1..6), gen::cfg_hostile(), prop::bool::weighted(0.8), crate::props::union::root_attrs(), any::<bool>())
+        .prop_map(|(picks, cfg, rooted, ra, with_ra)| {
+            let mut input = hostile_doc(&picks, rooted);
+            if rooted && with_ra {
+                input = crate::props::union::with_root_attrs(input, &ra);
+            }
+            Case { input, cfg, rooted: Some(rooted), namespaced: false, fam: "hostile".into() }
+        })
         .boxed()
 }
 
@@ -300,8 +306,11 @@ fn fam_lenient(_t: Tier) -> BoxedStrategy<Case> {
 }
 
 fn fam_docgen(_t: Tier) -> BoxedStrategy<Case> {
-    (gen::docgen(DocOpts::all(), 10, gen::hostile(4).boxed()), gen::cfg_hostile())
-        .prop_map(|(input, cfg)| Case { input, cfg, rooted: Some(true), namespaced: false, fam: "docgen".into() })
+    (gen::docgen(DocOpts::all(), 10, gen::hostile(4).boxed()), gen::cfg_hostile(), crate::props::union::root_attrs(), any::<bool>())
+        .prop_map(|(input, cfg, ra, with_ra)| {
+            let input = if with_ra { crate::props::union::with_root_attrs(input, &ra) } else { input };
+            Case { input, cfg, rooted: Some(true), namespaced: false, fam: "docgen".into() }
+        })
         .boxed()
 }
 
